@@ -25,8 +25,8 @@ def lines_axioms(c, text):
     return seq
 
 
-def _line_col(target, cls, mk_self, mk_args, result_items):
-    @contract(target, prop="C20")
+def _line_col(target, cls, mk_self, mk_args, result_items, prop="C20"):
+    @contract(target, prop=prop)
     def lc(c):
         text, index = c.str("text"), c.int("index")
         c.requires(z3.And(index.t >= 0, index.t < L(text.t)), "position inside the source")
@@ -105,8 +105,8 @@ def _tokenize_body(kind_label, kind_const, extra_req=None):
 _tokenize_body("any-kind", lambda c: c.str("match_kind"))
 
 
-def _liquid_tag_tokens(expr_present):
-    @contract("liquid.builtin.tags.liquid_tag:_tokenize_liquid_expression", prop="C20", name=f"_tokenize_liquid_expression.loop-body[LIQUID_EXPR,expr={'present' if expr_present else 'empty'}]")
+def _liquid_tag_tokens(expr_present, prop="C20"):
+    @contract("liquid.builtin.tags.liquid_tag:_tokenize_liquid_expression", prop=prop, name=f"_tokenize_liquid_expression.loop-body[LIQUID_EXPR,expr={'present' if expr_present else 'empty'}]")
     def tb(c):
         """Token invariant through the {% liquid %} tag's line tokenizer: every token it yields
         indexes into the TEMPLATE source at its own value, given that the parent token does and
@@ -144,9 +144,12 @@ def _liquid_tag_tokens(expr_present):
                 if isinstance(o, Raised):
                     outs.append((s, o))
                 else:
+                    s.ghost["__leaves_loop__"] = o is BRK or isinstance(o, Ret)
                     outs.append((s, Ret(VTuple(tuple(toks)))))
             return outs
         c.entry = entry
+        # a line (a comment line too) only ever skips ITSELF: the scan goes on with the next line
+        c.ensures("no-line-ends-the-scan-of-the-liquid-tag(comment-lines-hide-themselves-only)", lambda r: z3.BoolVal(not r.st.ghost.get("__leaves_loop__", False)))
 
         def post(r):
             # linear form: the token's value is a group of the match, its source is the template
@@ -222,6 +225,11 @@ def run(m):
                     bad.append(("error-position-outside-source", tok.start_index, len(tok.source)))
             except Exception as ex:
                 bad.append(("message-raises", repr(ex)))
+    # a comment line hides itself only, with and without shorthand template comments
+    for kw in ({}, {"template_comments": True}):
+        got = Environment(**kw).from_string("{% liquid\n# note\necho 'a'\n# more\necho 'b'\n%}").render()
+        if got != "ab":
+            bad.append(("comment-line-ended-the-liquid-tag", kw, got))
     return {"violated": bool(bad), "observed": bad[:4], "witness": "liquid-tag-locations"}
 '''
 
